@@ -201,23 +201,40 @@ def c13_case(seed, k):
         if len(g["rules"]) >= 2 and any(r["def"][0] in ("rep", "opt", "cat", "alt") for r in g["rules"]):
             break
     names = [r["name"] for r in g["rules"]]
+    # make sure some rule reaches another one THROUGH A REPETITION (that is where results are memoised)
+    if len(names) >= 2 and rng.random() < 0.8:
+        host, guest = rng.sample(range(len(names)), 2)
+        wrapped = ["rep", rng.choice([0, 0, 1]), rng.choice([None, None, 3]), ["ref", names[guest]]]
+        g["rules"][host]["def"] = rng.choice([wrapped, ["cat", [wrapped, g["rules"][host]["def"]]],
+                                              ["cat", [g["rules"][host]["def"], wrapped]]])
+        if not gen.wf(g):
+            g["rules"][host]["def"] = wrapped
+        if not gen.wf(g):
+            return c13_case(seed, k + 100003)
     inputs = gen.gen_inputs(rng, g, n_derived=3, n_mut=2, n_rand=2, maxlen=8)[:8]
+    referenced = sorted({x for r in g["rules"] for x in gen.refs_of(r["def"], set())})
+    # ONE kind of mutation per case (each kind has its own invalidation site), rotating with the case index
+    kind = ["redefine", "extend", "flag", "exclude", "construct", "mixed"][k % 6]
     muts = []
-    for _ in range(rng.randint(1, 3)):
-        kind = rng.choice(["redefine", "redefine", "extend", "flag", "exclude", "construct"])
-        tgt = rng.choice(names)
-        if kind in ("redefine", "extend", "construct"):
+    for _ in range(rng.randint(1, 2)):
+        kd = rng.choice(["redefine", "extend", "flag", "exclude", "construct"]) if kind == "mixed" else kind
+        tgt = rng.choice(referenced) if referenced and rng.random() < 0.7 else rng.choice(names)
+        if kd in ("redefine", "extend", "construct"):
             for _ in range(50):
                 nd = gen.gen_expr(rng, 2, names, g["alpha"])
                 if renderable(nd):
                     break
             else:
                 nd = ["lit", 0, "a"]
-            muts.append([kind, tgt, nd])
-        elif kind == "flag":
-            muts.append(["flag", tgt, rng.randint(0, 1)])
+            muts.append([kd, tgt, nd])
+        elif kd == "flag":
+            alts = [r["name"] for r in g["rules"] if r["def"][0] == "alt"]
+            if not alts:
+                g["rules"][0]["def"] = ["alt", 0, [g["rules"][0]["def"], ["lit", 0, "zz"]]]
+                alts = [g["rules"][0]["name"]]
+            muts.append(["flag", rng.choice(alts), 1])
         else:
-            other = rng.choice([n for n in names if n != tgt])
+            other = rng.choice([n for n in names if n != tgt] or names)
             muts.append(["exclude", tgt, other])
     return {"seed": seed, "index": k, "grammar": g, "inputs": inputs, "muts": muts}
 
@@ -263,6 +280,9 @@ def run_c13(cases):
             continue
         rng = random.Random(f"r:{c['seed']}:{c['index']}")
         try:
+            # the twin (built directly in the final state) is built FIRST: constructing rules bumps the global cache
+            # epoch, which would hide stale entries if it happened between the mutation and the probes
+            tcls, tobjs = pyimpl.build_grammar(fa)
             cls, objs = pyimpl.build_grammar(g)
             names = [r["name"] for r in g["rules"]]
             before = {}
@@ -273,7 +293,6 @@ def run_c13(cases):
             for m in c["muts"]:
                 apply_mut(cls, objs, m, rng)
                 stats["mutations"][m[0]] = stats["mutations"].get(m[0], 0) + 1
-            tcls, tobjs = pyimpl.build_grammar(fa)       # twin built directly in the final state
         except RecursionError:
             stats["skipped"] += 1
             continue
@@ -284,7 +303,7 @@ def run_c13(cases):
             for n in names:
                 rid = d.rids[id(objs[n])]
                 for i in range(len(s) + 1):
-                    impl = pyimpl.run_lparse(objs[n], s, i)
+                    impl = pyimpl.run_lparse(objs[n], s, i)     # nothing below may touch the registry before this
                     twin = pyimpl.run_lparse(tobjs[n], s, i)
                     lines.append(" ".join(["LPARSE", "0", str(rid), str(i)] + st))
                     plan.append((c, n, s, i, impl, twin))
